@@ -854,6 +854,34 @@ func c12r5(c *Ctx) {
 				c.viol(R, key, call.Pos(), "the size released is not the .Cap of a buffer")
 				continue
 			}
+			if f.Key == "store.readRecordAt" {
+				// the deferred cleanup frees wrec.rec.Payload: that covers the buffer only once
+				// it was attached to the payload; before that the branch has to free it itself
+				ro := prog.RootObj(info, owner)
+				attached := false
+				ast.Inspect(f.Decl.Body, func(x ast.Node) bool {
+					if as, ok := x.(*ast.AssignStmt); ok && len(as.Lhs) == 1 && len(as.Rhs) == 1 {
+						if k, _ := prog.FieldOf(info, as.Lhs[0]); k == "store.Payload.CArray" && prog.ObjOf(info, prog.Unparen(as.Rhs[0])) == ro {
+							c.Paths++
+							if f.CFG().Dominates(as, call.Expr) {
+								attached = true
+							}
+						}
+					}
+					return true
+				})
+				freed := false
+				for _, s := range enclosingList(f, call.Expr) {
+					for _, fr := range f.CallsIn(s, "cmem.CArray.Free") {
+						if se, ok := prog.Unparen(fr.Expr.Fun).(*ast.SelectorExpr); ok && prog.RootObj(info, se.X) == ro {
+							freed = true
+						}
+					}
+				}
+				c.check(attached || freed, R, key, call.Pos(), "buffer attached to the payload the deferred cleanup frees, or freed in the branch",
+					"the record buffer is un-accounted on this error path but neither freed here nor yet attached to the payload that the deferred cleanup frees: the C allocation leaks (a short read of the key/value block, e.g. a position made stale by GC)")
+				continue
+			}
 			if why, ok := handover[f.Key]; ok {
 				c.ok(R, key, call.Pos(), "frozen hand-over: "+why)
 				continue
